@@ -50,7 +50,39 @@ theorem safe_iff_arguments (p : Proto) (a : CtorArgs) :
 theorem configuration_private :
     facts17.kwIsolated = true ∧ facts17.parserPerRequest = true ∧ facts17.extraKwKeys = 0 := by decide
 
+/-! ### the configuration path after construction: validator choice, `set_validator`, `set_app`,
+    server construction — the keyword table AT REQUEST TIME -/
+
+/-- nothing in spyne/ writes to a `parser_kwargs` outside an `__init__` -/
+theorem no_writes_after_init : facts17.kwWritesOutsideInit = 0 := by decide
+
+/-- for ALL constructor arguments, every protocol and every validator setting (None, 'soft',
+    'lxml'): the table the parser is built from when a request arrives is the constructor's -/
+theorem request_time_is_constructor (p : Proto) (v : Validator) (a : CtorArgs) :
+    parserKwargsAtRequest facts17 p v a = directKw a := by
+  have h : facts17.post p v = PostInit.keepAll := by cases p <;> cases v <;> decide
+  unfold parserKwargsAtRequest
+  rw [h, plumbing_direct]
+  rfl
+
+/-- Safe is an invariant of every configuration path: constructor arguments × validator × set_app -/
+theorem safe_invariant (p : Proto) (v : Validator) (a : CtorArgs)
+    (h : a.resolveEntities = .off ∧ a.loadDtd = false ∧ a.dtdValidation = false ∧
+         a.attributeDefaults = false ∧ a.noNetwork = true ∧ a.hugeTree = false) :
+    Safe (parserKwargsAtRequest facts17 p v a) := by
+  rw [request_time_is_constructor]; exact (safe_directKw_iff a).mpr h
+
+/-- in particular the default-constructed protocols, read back from live objects at request time -/
+theorem defaults_safe_at_request (p : Proto) (v : Validator) :
+    Safe (facts17.liveAtRequest p v) ∧ Tidy (facts17.liveAtRequest p v) ∧
+    facts17.liveAtRequest p v = parserKwargsAtRequest facts17 p v (facts17.ctorDefaults p) := by
+  cases p <;> cases v <;> decide
+
 example : Safe (parserKwargs (facts17.plumb .soap11) (facts17.ctorDefaults .soap11)) := by decide
+example : Safe (parserKwargsAtRequest facts17 .xml .lxml (facts17.ctorDefaults .xml)) := by decide
+-- what the facts guard against: a path that switches attribute_defaults on makes the table unsafe
+example : ¬ Safe (({ PostInit.keepAll with attributeDefaults := .set true } : PostInit).apply (facts17.liveDefaults .xml)) := by
+  decide
 example : ¬ Safe (parserKwargs (facts17.plumb .xml) { facts17.ctorDefaults .xml with resolveEntities := .all }) := by decide
 example : ¬ Safe (parserKwargs (facts17.plumb .xml) { facts17.ctorDefaults .xml with hugeTree := true }) := by decide
 
